@@ -103,7 +103,7 @@ def run(ctx):
         for pi, p in enumerate(passes, 1):
             down = rng.random() < 0.5
             start = rng.choice([1000.0, 11916.0, 512.5, 0.0])
-            spacing = rng.choice([0.25, 0.5, 1.0, 0.125])
+            spacing = rng.choice([0.25, 0.5, 1.0, 0.125, 0.25, 0.5, 1.0, 0.125, 0.0])       # 0.0: a stationary pass, start = stop, every frame at one depth
             nfr = sum(p['blocks'])
             # the header range need not cover the recorded frames exactly: the last block is padded, so a pass often
             # holds more frames than (stop - start) / spacing + 1, and sometimes fewer
